@@ -34,7 +34,7 @@ ASSUMPTIONS = [
 FAR = 1000.0
 # (n of base multisets, k, two_cluster)
 STRATA = {
-    "quick": [(2, 1, False), (2, 1, True), (2, 8, False), (2, 8, True), (2, 24, False), (2, 16, True), (1, 100, True)],
+    "quick": [(2, 1, False), (2, 1, True), (2, 8, False), (2, 8, True), (2, 24, False), (2, 12, True), (1, 100, True)],
     "thorough": [(3, 1, False), (3, 1, True), (3, 8, False), (3, 8, True), (2, 40, False), (2, 40, True),
                  (2, 120, False), (2, 120, True), (1, 300, True)],
 }
